@@ -7,6 +7,7 @@ pub mod ch_util;
 pub mod ch_mpsc;
 pub mod mq_spmc;
 pub mod mutex;
+pub mod rwlock;
 pub mod sem;
 pub mod syncflag;
 pub mod condvar;
@@ -30,6 +31,8 @@ pub struct Built {
 pub fn build_det(family: &str, rng: &mut Rng, tier: u32) -> Option<Built> {
     match family {
         "mutex" => Some(mutex::build(rng, tier)),
+        "rwlock" => Some(rwlock::build(rng, tier)),
+        "rwlock_reg" => Some(rwlock::build_reg(rng, tier)),
         "ch_mpsc" => Some(ch_mpsc::build(rng, tier)),
         "sem" => Some(sem::build(rng, tier)),
         "syncflag" => Some(syncflag::build(rng, tier)),
@@ -44,11 +47,12 @@ pub fn build_det(family: &str, rng: &mut Rng, tier: u32) -> Option<Built> {
 }
 
 pub fn det_families() -> Vec<&'static str> {
-    vec!["ch_mpsc", "mutex", "sem", "syncflag", "mq_mpsc", "mq_spsc", "mq_spmc", "condvar", "barrier", "waitgroup"]
+    vec!["ch_mpsc", "mutex", "rwlock", "rwlock_reg", "sem", "syncflag", "mq_mpsc", "mq_spsc", "mq_spmc", "condvar", "barrier", "waitgroup"]
 }
 
 pub mod live_park;
 pub mod live_join;
+pub mod live_life;
 
 /// a live-mode scenario (real runtime, real time)
 pub struct LiveBuilt {
@@ -64,6 +68,7 @@ pub fn build_live(family: &str, rng: &mut Rng, tier: u32) -> Option<LiveBuilt> {
     match family {
         "park" => Some(live_park::build(rng, tier)),
         "join" => Some(live_join::build(rng, tier)),
+        "life" => Some(live_life::build(rng, tier)),
         _ => None,
     }
 }
